@@ -3,9 +3,11 @@ package main
 // C07 (the parser accepts exactly what the protocol allows) and C03 (self-certifying DIDs).
 
 import (
+	"bytes"
 	"crypto/sha256"
 	"encoding/json"
 	"fmt"
+	"github.com/trustbloc/sidetree-go/pkg/vdr/sidetreelongform/dochandler"
 	"math/rand"
 	"strings"
 
@@ -27,6 +29,7 @@ type reqSpec struct {
 	from, until                                         int64
 	origin                                              interface{}
 	typeMember                                          *string
+	signedReveal                                        bool
 	signedSuffix                                        *string
 	revealOfOtherKey                                    bool
 	didSuffix                                           string
@@ -153,6 +156,9 @@ func buildReq(sp reqSpec, r *rand.Rand, algs []uint) builtReq {
 			ss = *sp.signedSuffix
 		}
 		payload := M{"didSuffix": ss, "recoveryKey": curJWK}
+		if sp.signedReveal { // the optional signed copy of the reveal value: always the signing key's own
+			payload["revealValue"] = revealOf(curJWK, sp.revealCode)
+		}
 		addWin(payload)
 		req["didSuffix"], req["revealValue"] = sp.didSuffix, reveal
 		req["signedData"] = compactJWS(r, hdr, jcs(payload), cur)
@@ -450,6 +456,13 @@ func genParseCases(r *rand.Rand) []parseCase {
 			other := "EiAother"
 			sp.signedSuffix = &other
 			add("signed-suffix-mismatch", cloneCfg(base), buildReq(sp, r, base.MultihashAlgorithms), typ, false)
+			// the signed data may repeat the reveal value; the request's own one is what must match the signing key
+			sp = defaultSpec(typ, r)
+			sp.signedReveal = true
+			add("signed-reveal-copy", cloneCfg(base), buildReq(sp, r, base.MultihashAlgorithms), typ, true)
+			sp = defaultSpec(typ, r)
+			sp.signedReveal, sp.revealOfOtherKey = true, true
+			add("signed-reveal-right-request-reveal-of-other-key", cloneCfg(base), buildReq(sp, r, base.MultihashAlgorithms), typ, false)
 		}
 		if typ == "create" || typ == "recover" {
 			sp := defaultSpec(typ, r)
@@ -604,12 +617,16 @@ func numJV(i int64) *jv {
 }
 
 func genC03(seed int64, tier string) []caseOut {
-	n := 25
+	n := 30
 	if tier == "thorough" {
 		n = 800
 	}
 	r := rand.New(rand.NewSource(seed))
 	var out []caseOut
+	lfHandler, lfErr := dochandler.New("did:ns")
+	if lfErr != nil {
+		panic(lfErr)
+	}
 	for i := 0; i < n; i++ {
 		algs := [][]uint{{18}, {18, 19}, {19}, {19, 18}, {18}}[i%5] // every configuration shape in every run
 		cfg := baseProtocol(r)
@@ -630,6 +647,10 @@ func genC03(seed int64, tier string) []caseOut {
 				"https://origin.example/Ł", "https://origin.example/A", "原点.example", "origine-é.example", "o\u0141"}[r.Intn(11)]
 		case 4:
 			sp.origin = A{"https://a.example/", M{"b": "x/"}}
+		case 5: // zero: its spellings (-0, 0.0, 0e5 ...) all denote the same request
+			if (i/30)%2 == 0 {
+				sp.origin = 0.0
+			}
 		}
 		if r.Intn(2) == 0 {
 			sp.sdType = []string{"kind1", "kind1", "kínd", "種類"}[r.Intn(4)]
@@ -658,6 +679,11 @@ func genC03(seed int64, tier string) []caseOut {
 		addVariant("canonical", b.bytes, true)
 		addVariant("respelled", []byte(spell(tree, r, 1)), true)
 		addVariant("respelled", []byte(spell(tree, r, 2)), true)
+		if f, ok := sp.origin.(float64); ok && f == 0 {
+			for _, z := range []string{"-0", "-0.0", "0.0", "0e5", "0E-3", "-0.00", "-0e0"} {
+				addVariant("respelled-zero:"+z, bytes.Replace(b.bytes, []byte(`"anchorOrigin":0`), []byte(`"anchorOrigin":`+z), 1), true)
+			}
+		}
 		// single-field modifications of suffix data and of the delta
 		for _, mod := range []string{"recoveryCommitment", "deltaHash", "anchorOrigin", "sdType", "delta.updateCommitment", "delta.patch"} {
 			req := M{}
@@ -704,10 +730,65 @@ func genC03(seed int64, tier string) []caseOut {
 			addVariant("delta-hash-respelled:"+m[0], jcs(req), false)
 		}
 		mustRefuse = false
+		// member-order pairs: one request in two member orders must denote one DID (or be refused twice)
+		var pairs []string
+		var pairRecs []interface{}
+		addPair := func(kind string, x, y []byte) {
+			mk := func(bytes []byte) (string, map[string]interface{}) {
+				op, err := p.Parse("did:ns", bytes)
+				impl := "None"
+				rr := map[string]interface{}{"request": string(bytes), "impl_accept": err == nil}
+				if err == nil {
+					impl = fmt.Sprintf("(Some (%s, %s))", cStr(op.UniqueSuffix), cStr(op.ID))
+					rr["suffix"], rr["id"] = op.UniqueSuffix, op.ID
+				}
+				return fmt.Sprintf("(mk_variant %s %s true false)", cStr(string(bytes)), impl), rr
+			}
+			vx, rx := mk(x)
+			vy, ry := mk(y)
+			pairs = append(pairs, fmt.Sprintf("(%s, %s)", vx, vy))
+			pairRecs = append(pairRecs, map[string]interface{}{"kind": kind, "first": rx, "second": ry})
+		}
+		{
+			var raw map[string]json.RawMessage
+			json.Unmarshal(b.bytes, &raw)
+			sdTxt, dlTxt := string(raw["suffixData"]), string(raw["delta"])
+			front := func(obj, member string) string { return "{" + member + "," + obj[1:] }
+			back := func(obj, member string) string { return obj[:len(obj)-1] + "," + member + "}" }
+			req := func(ty, sd, dl string) []byte {
+				return []byte(`{"delta":` + dl + `,"suffixData":` + sd + `,"type":` + ty + `}`)
+			}
+			// plain re-ordering (members reversed at the top level): one DID
+			addPair("order:top-reversed", b.bytes, []byte(`{"type":"create","suffixData":`+sdTxt+`,"delta":`+dlTxt+`}`))
+			other := commitmentOf(genKey(r, "P-256").jwk(), code)
+			switch i % 3 {
+			case 0: // a second member equal up to case in the suffix data (struct decoding: last match wins)
+				m := `"RecoveryCommitment":` + string(mustJSON(other))
+				addPair("case-variant:suffixData.RecoveryCommitment", req(`"create"`, front(sdTxt, m), dlTxt), req(`"create"`, back(sdTxt, m), dlTxt))
+			case 1:
+				m := `"UpdateCommitment":` + string(mustJSON(other))
+				addPair("case-variant:delta.UpdateCommitment", req(`"create"`, sdTxt, front(dlTxt, m)), req(`"create"`, sdTxt, back(dlTxt, m)))
+			case 2: // an unknown member that is no case variant of a known one: ignored in both orders
+				m := `"recoveryCommitments":` + string(mustJSON(other))
+				addPair("unknown-member:suffixData.recoveryCommitments", req(`"create"`, front(sdTxt, m), dlTxt), req(`"create"`, back(sdTxt, m), dlTxt))
+			}
+		}
+		// the long-form entry point derives the DID from the same request: with this initial state
+		// whatever resolves ends with :suffix:state
+		state := b64(b.bytes)
+		exact := "did:ns:" + b.suffix + ":" + state
+		var lfs []string
+		var lfRecs []interface{}
+		for _, did := range []string{exact, "did:ns:" + b.suffix + "A:" + state, "did:ns:" + b.suffix + "-backup:" + state, "did:ns:" + b.suffix[:len(b.suffix)-1] + ":" + state,
+			"did:ns:x" + b.suffix + ":" + state, "did:ns:" + b.suffix + ":extra:" + state, "did:ns:extra:" + b.suffix + ":" + state, "did:ns:" + strings.ToLower(b.suffix) + ":" + state} {
+			_, resolved, _ := resolveImpl(lfHandler, did)
+			lfs = append(lfs, fmt.Sprintf("(%s, %s)", cStr(did), cBool(resolved)))
+			lfRecs = append(lfRecs, map[string]interface{}{"did": did, "resolved": resolved})
+		}
 		h := sha256.Sum256(b.bytes)
 		out = append(out, caseOut{
-			Coq:    fmt.Sprintf("(mk_c03 %s %s %s %s)", urlOracle(map[string]interface{}(b.request)), coqProtocol(cfg), cStr(b.suffix), cList(variants)),
-			Rec:    map[string]interface{}{"protocol_algorithms": algs, "expected_suffix": b.suffix, "variants": recs},
+			Coq:    fmt.Sprintf("(mk_c03 %s %s %s %s %s %s %s)", urlOracle(map[string]interface{}(b.request)), coqProtocol(cfg), cStr(b.suffix), cList(variants), cList(pairs), cStr(":"+b.suffix+":"+state), cList(lfs)),
+			Rec:    map[string]interface{}{"protocol_algorithms": algs, "expected_suffix": b.suffix, "variants": recs, "order_pairs": pairRecs, "long_form": lfRecs},
 			Label:  fmt.Sprintf("create,algs-%v,code-%d", algs, code),
 			NonTri: fmt.Sprintf("%x", h[:8]),
 		})
@@ -718,4 +799,12 @@ func genC03(seed int64, tier string) []caseOut {
 func init() {
 	generators["C07"] = generator{"c07case", "judge_c07", parseImports, genC07}
 	generators["C03"] = generator{"c03case", "judge_c03", parseImports, genC03}
+}
+
+func mustJSON(v interface{}) []byte {
+	b, err := json.Marshal(v)
+	if err != nil {
+		panic(err)
+	}
+	return b
 }
